@@ -348,7 +348,7 @@ class Check:
         rd = os.path.join(os.environ.get('VERIF_REPLAY_DIR') or os.path.join(VERIF, 'replays'), s.prop); os.makedirs(rd, exist_ok=True)
         key = hashlib.sha1((h.name + expect_desc + repr(feed)).encode()).hexdigest()[:10]
         path = os.path.join(rd, '%s_%s.json' % (h.name, key))
-        json.dump({'property': s.prop, 'unit': h.unit, 'harness': h.name, 'feed': feed, 'failed_property': expect_desc}, open(path, 'w'), indent=1)
+        json.dump({'property': s.prop, 'unit': h.unit, 'harness': h.name, 'label': h.label or h.name, 'feed': feed, 'failed_property': expect_desc}, open(path, 'w'), indent=1)
         fpath = os.path.join(info['dir'], 'feed_%s.txt' % key); open(fpath, 'w').write(' '.join(map(str, feed)))
         env = dict(os.environ, ASAN_OPTIONS='detect_leaks=0:halt_on_error=0', UBSAN_OPTIONS='print_stacktrace=1')
         rc, out, err, dt = run([r, h.name, 'replay', fpath], timeout=120, env=env)
@@ -458,7 +458,8 @@ def replay_file(prop, path, spec):
     c = Check(prop, 'quick')
     u = [x for x in spec.units('thorough') if x.name == j['unit']][0]
     info = c.build_unit(u)
-    h = [x for x in spec.harnesses('thorough') if x.name == j['harness']][0]
+    hs = spec.harnesses('thorough')
+    h = ([x for x in hs if j.get('label') and (x.label or x.name) == j['label']] or [x for x in hs if x.name == j['harness']])[0]      # instance (its -D defines) by label
     p, detail = c.replay(info, h, j['feed'], j.get('failed_property', ''))
     print(detail)
     print('REPRODUCED' if p else 'NOT REPRODUCED')
